@@ -159,6 +159,16 @@ def ref_eval(prog, ds, registry, name, start_iso, end_iso):
 # registry: recorder + the harness's identity built-ins
 
 
+def _reach(x, acc=None, depth=0):
+    """ids of the containers (lists, dicts, events) reachable from x"""
+    acc = set() if acc is None else acc
+    if isinstance(x, (list, tuple, dict)) and id(x) not in acc and depth < 40:
+        acc.add(id(x))
+        for v in (x.values() if isinstance(x, dict) else x):
+            _reach(v, acc, depth + 1)
+    return acc
+
+
 # built-ins that annotate the events they are given IN PLACE (their keys are added to the caller's events): C19's
 # subject, and acknowledged by C12's quantifier ("programs that annotate ... events in place")
 # period_union likewise clears, in place, the data of those input events that it returns unmerged ("clear ... in place").
@@ -217,11 +227,15 @@ class Registry:
                 result = fn(datastore, namespace, *args, **kwargs)
             finally:
                 # what the call did to the values it was given (they may be bound to variables of the program)
-                if before is not None and name not in ANNOTATORS:
+                if before is not None and name != "period_union":
                     try:
+                        # an annotator may add keys to the EVENTS it is given (its first argument) - nothing else
+                        skip = 1 if name in ANNOTATORS else 0
+                        if skip and len(args) > 1 and _reach(args[0]) & _reach(list(args[1:])):
+                            skip = len(args)      # the other arguments contain the very events being annotated: nothing to compare
                         after = cv(list(args))
                         reg.calls_compared += 1
-                        if after != before:
+                        if after[1][skip:] != before[1][skip:]:
                             reg.arg_effects.append((name, before, after))
                     except Exception:  # noqa: BLE001
                         pass
